@@ -78,6 +78,7 @@ type FamilyDecl struct {
 	Prefix  []string // partial key functions producing prefixes of this family (for iterators)
 	Slices  map[string]int // "9:" -> index of the key argument obtained by slicing a full key
 	FixedLen []int         // key components declared to be of fixed encoded length (key-layout audit)
+	PrefixBy map[string][]string // prefix func -> projections (see "prefixby")
 	Line    int
 }
 
@@ -203,6 +204,16 @@ func ParseSpecFile(path string) (*SpecFile, error) {
 					fd.Enc = fs[i+1]
 				case "prefix":
 					fd.Prefix = strings.Split(fs[i+1], ",")
+				case "prefixby":
+					// prefixby <func>:<uf1>+<uf2>: the prefix constructor selects the keys whose (single, byte-string) component k
+					// has uf1(k) == first argument, uf2(k) == second argument (a structured id such as ctx||batch||...)
+					kv := strings.SplitN(fs[i+1], ":", 2)
+					if len(kv) == 2 {
+						if fd.PrefixBy == nil {
+							fd.PrefixBy = map[string][]string{}
+						}
+						fd.PrefixBy[kv[0]] = strings.Split(kv[1], "+")
+					}
 				case "fixedlen":
 					// key components (0-based) of string / byte type whose encoded length is fixed (declared assumption,
 					// e.g. a bech32 account address of this chain): the key-layout audit treats them as self-delimiting
